@@ -64,7 +64,7 @@ def op_strategy(kind, none_p=True, bulk_empty=True, heavy=True):
         (2, bulk(3)),
         (2, bulk(4)),
         (2, bulk(5)),
-        (1, st.tuples(st.just("add_weighted_edges_from"), st.lists(st.tuples(members_of(kind, 1, 3, none_p), st.sampled_from([0.5, 2, 3.0])).map(list), max_size=2), st.sampled_from(["weight", "w"]), a).map(list)),
+        (1, st.tuples(st.just("add_weighted_edges_from"), st.lists(st.tuples(members_of(kind, 1, 3, none_p), st.sampled_from([0.5, 2, 3.0])).map(list), max_size=2), st.sampled_from(["weight", "w"]), a.map(lambda d: {k: v for k, v in d.items() if k != "weight"})).map(list)),
         (2, setattr_modes(e).map(lambda t: ["set_edge_attributes"] + list(t))),
         (3, st.tuples(st.just("double_edge_swap"), n, n, e, e).map(list)),
         (2, st.tuples(st.just("random_edge_shuffle"), e, e, st.integers(0, 10**6)).map(list)),
@@ -131,7 +131,7 @@ def make_init(init):
 def history(draw, max_ops=30, none_p=True, bulk_empty=True, heavy=True, kind=None, with_init=True):
     kind = kind or draw(nets.kinds)
     init = draw(init_strategy(kind)) if with_init else ["empty"]
-    ops = draw(st.lists(op_strategy(kind, none_p, bulk_empty, heavy), max_size=max_ops))
+    ops = draw(nets.op_lists(op_strategy(kind, none_p, bulk_empty, heavy), max_ops))
     return {"kind": kind, "init": init, "ops": ops}
 
 
